@@ -111,30 +111,34 @@ impl<K: ExpiredKey<E>, E: Expiration, V: Copy> KeyExpTree<K, E, V> {
 
     #[inline]
     fn expire_all(&mut self, time: E) {
-        let n = self.store.buffer.len() as u32;
-        for i in 1..n {
-            if self.is_part_of_the_tree(i) && !self.node(i).is_not_expired(time) {
-                self.delete_index(i);
-            }
+        if self.root == EMPTY_REF {
+            return;
         }
-    }
+        let n = self.store.buffer.len();
 
-    #[inline]
-    fn is_part_of_the_tree(&self, index: u32) -> bool {
-        let mut prev = index;
-        let mut cursor = self.node(index).parent;
-        while cursor != 0 && cursor != EMPTY_REF && cursor != index {
-            prev = cursor;
-            let parent_index = self.node(cursor).parent;
-            if parent_index == EMPTY_REF {
-                break;
+        // Freed slots keep stale links, so mark the slots that are really linked into the tree.
+        let mut live = vec![false; n];
+        let mut stack = vec![self.root];
+        while let Some(index) = stack.pop() {
+            live[index as usize] = true;
+            let node = self.node(index);
+            if node.left != EMPTY_REF {
+                stack.push(node.left);
             }
-            let parent = self.node(parent_index);
-            if parent.left != cursor && parent.right != cursor {
-                return false;
+            if node.right != EMPTY_REF {
+                stack.push(node.right);
             }
-            cursor = parent_index;
         }
-        prev == self.root
+
+        for i in 1..n {
+            // Removing a node with two children moves its successor's entity into slot `i`
+            // and releases the successor's slot instead, so look at slot `i` again.
+            while live[i] && !self.node(i as u32).is_not_expired(time) {
+                self.delete_index(i as u32);
+                if let Some(&released) = self.store.unused.last() {
+                    live[released as usize] = false;
+                }
+            }
+        }
     }
 }
